@@ -65,9 +65,21 @@ ASSUMPTIONS = ['reported discharge carries a negative sign (EAO convention min(0
                'level_t is the level at the END of step t']
 
 
+GRIDV_QUICK = [('basic_eff', 'day_d_cet_dst'), ('window_inside', 'month_d'), ('no_simult', 'quarter_min'), ('two_nodes', 'day_h_useast_fall')]
+
+
 def cases(tier, seed):
+    from .. import shapes
     lst = THOROUGH if tier == 'thorough' else QUICK
-    return [(cid, dict(shape=SHAPE_OF[cid], kw=dict(kw), level=level, opts=opts)) for cid, kw, level, opts in lst]
+    out = [(cid, dict(shape=SHAPE_OF[cid], kw=dict(kw), level=level, opts=opts)) for cid, kw, level, opts in lst]
+    # the same storages on other kinds of grid (irregular steps, other main units, zone-aware)
+    for cid, kw, level, opts in lst:
+        if 'freq' in kw or 'unit' in kw or 'blocks' in opts or opts.get('coarse') or opts.get('warmup'):
+            continue
+        for gv in shapes.GRID_VARIANTS:
+            if tier == 'thorough' or (cid, gv) in GRIDV_QUICK:
+                out.append(('%s@%s' % (cid, gv), dict(shape=SHAPE_OF[cid], kw=dict(kw, gridv=gv), level=level, opts=opts)))
+    return out
 
 
 def _storage(pf, name):
